@@ -92,8 +92,10 @@ def configs_along(script, recs):
     for rec in recs:
         ev = script['events'][rec['seq']] if rec['seq'] >= 0 else {}
         if ev.get('op') == 'Reconfigure' and rec['reply']['class'] == 'ok' and ev['config'] != '__CURRENT__':
+            # any accepted configuration other than the one in force counts (also one meant to be
+            # rejected that the policy accepts, K8)
+            changed = changed or ev['config'] != cfg
             cfg = ev['config']
-            changed = changed or ev.get('tag') == 'new'
         if ev.get('op') == 'Restart' and ev.get('config'):
             cfg = ev['config']
         out.append((cfg, changed))
